@@ -113,8 +113,8 @@ structure Stb (h : Nat) (file0 : List Write) (s : State) : Prop where
   file : ∃ ws, s.sh.file = file0 ++ ws ∧ ∀ w ∈ ws, GoodWrite h w
 
 theorem liveFrame_length (cfg : Cfg) (ov : Live.Overflow) (r : Frame) (hfit : r.length ≤ cfg.height) :
-    (liveFrame cfg.live ov r).length = r.length := by
-  simp only [liveFrame, List.length_map, Cfg.live]
+    (liveFrame cw1 cfg.width cfg.height ov r).length = r.length := by
+  simp only [liveFrame, List.length_map]
   rw [if_neg (by omega)]
   simp
 
@@ -295,9 +295,9 @@ theorem execS {cfg : Cfg} (hkind : cfg.kind = .live) {h : Nat} (hfit : h ≤ cfg
         simp only [Option.some.injEq] at ha; subst ha
         simp only [hkind, Option.some.injEq, Prod.mk.injEq] at he
         obtain ⟨rfl, rfl⟩ := he
-        have hlen : (liveFrame cfg.live sh.overflow l.rcopy).length = h := by
+        have hlen : (liveFrame cw1 cfg.width cfg.height sh.overflow l.rcopy).length = h := by
           rw [liveFrame_length cfg _ _ (by omega)]; exact hrc'
-        refine ⟨⟨hsh.hooks, ⟨Live.maxWidth (liveFrame cfg.live sh.overflow l.rcopy), by simp only [getShape, hlen]⟩, hsh.rend⟩,
+        refine ⟨⟨hsh.hooks, ⟨Live.maxWidth cw1 (liveFrame cw1 cfg.width cfg.height sh.overflow l.rcopy), by simp only [getShape, hlen]⟩, hsh.rend⟩,
           ?_, ?_, rfl, Or.inl rfl⟩
         · rw [absS_push]; exact hsim
         · intro x hx
